@@ -245,6 +245,35 @@ def run_config(case, ctx):
                     continue
                 kl = '+'.join(sorted(set(kinds)))
                 compare(ctx, f'config|{dn}|idepth={idepth}|cdepth={cdepth}|index={inc_i}|columns={inc_c}', f, g, dict(info, exported=buf.getvalue()), check_index=inc_i, check_columns=inc_c)
+        # the same table held by a grow-only Frame whose columns were added after construction, exported straight after the growth (no read in between)
+        if cdepth == 1:
+            def grown(how, src):
+                if how == 'setitem':
+                    g_ = sf.FrameGO(index=index, name='f')
+                    for lab_, (_, col_) in zip(col_labels_1, src.items()):
+                        g_[lab_] = col_.values
+                elif how == 'seed+setitem':
+                    g_ = src[col_labels_1[:1]].to_frame_go()
+                    for lab_ in col_labels_1[1:]:
+                        g_[lab_] = src[lab_].values
+                else:
+                    g_ = src[col_labels_1[:1]].to_frame_go()
+                    if nc > 1:
+                        g_.extend(src[col_labels_1[1:]])
+                return g_
+            for dn in DELIMS:
+                src = f_tab if dn == 'tsv' else f
+                for how in ('setitem', 'seed+setitem', 'seed+extend'):
+                    ctx.transition()
+                    info = dict(kinds=kinds, rows=nr, index_depth=idepth, delimiter=dn, grown_by=how)
+                    try:
+                        buf = io.StringIO()
+                        export(grown(how, src), dn, buf)
+                        g = import_(dn, buf.getvalue(), index_depth=idepth, columns_depth=1)
+                    except Exception as e:
+                        ctx.violation(f'config|{dn}|grown-FrameGO|raises-{type(e).__name__}', **info, error=repr(e))
+                        continue
+                    compare(ctx, f'config|{dn}|grown-FrameGO|{how}', src, g, dict(info, exported=buf.getvalue()))
         # the empty string survives when no store filter maps it to NaN
         if 'str' in kinds and nr >= 2:
             j = kinds.index('str')
@@ -328,6 +357,31 @@ def run_other(case, ctx):
                         arrays_g = list(g._blocks._blocks) + [g.index.values, g.columns.values, g.index.positions, g.columns.positions]
                         if any(a.flags.writeable for a in arrays_g):
                             ctx.violation(f'route|{rn}|auto-axes|writeable-array', **info)
+    # larger tables: NumPy rebuilds an unpickled array of more than about 1000 bytes as a view on the pickled bytes; the arrays of the Frame must still come back read-only
+    for rows in (3, 120, 130, 400, 2000):
+        for proto in range(2, pickle.HIGHEST_PROTOCOL + 1):
+            for li in (0, 1):
+                ctx.transition()
+                cols_ = [np.arange(rows, dtype='int64'), np.arange(rows, dtype='int64') * 2, np.arange(rows) * 0.5, np.array(['s%d' % i for i in range(rows)]), np.arange(rows) % 2 == 0]
+                for a in cols_:
+                    a.flags.writeable = False
+                blocks_ = [np.stack(cols_[:2], axis=1)] + cols_[2:] if li else cols_
+                for a in blocks_:
+                    a.flags.writeable = False
+                fb = sf.Frame(sf.TypeBlocks.from_blocks(blocks_), index=sf.Index(np.arange(rows) * 3, name='ix'), columns=('a', 'b', 'c', 'd', 'e'), name='nm')
+                ctx.state(('pickle-size', rows, proto, li))
+                ctx.nontriv(('pickle-size', rows, proto, li))
+                info = dict(rows=rows, protocol=proto, layout=li)
+                try:
+                    g = pickle.loads(pickle.dumps(fb, protocol=proto))
+                except Exception as e:
+                    ctx.violation(f'route|pickle|size|raises-{type(e).__name__}', **info, error=repr(e))
+                    continue
+                if not g.equals(fb, compare_name=True, compare_dtype=True, compare_class=True) or snap(g) != snap(fb):
+                    ctx.violation('route|pickle|size|not-equal', **info)
+                arrays_g = list(g._blocks._blocks) + [g.index.values, g.columns.values] + [a for a in g.iter_array(axis=0)] + [g['a'].values, g.values]
+                if any(a.flags.writeable for a in arrays_g):
+                    ctx.violation('route|pickle|size|writeable-array', **info, which=[i for i, a in enumerate(arrays_g) if a.flags.writeable])
     ctx.sample({'family': 'other-routes'}, limit=1)
 
 
